@@ -90,9 +90,31 @@ def labelContents (fs : FS) (paths : List Str) : List (List Line) :=
     | some (.file ls) => some ls
     | _ => none
 
-/-- the same as a fold over ordered layers, lowest precedence first: a later layer that speaks about `k` wins -/
-def pick {α : Type} (layers : List (Key → Option α)) (k : Key) : Option α :=
-  layers.foldl (fun acc L => match L k with | some v => some v | none => acc) none
+/-! ### the same as a fold over ordered layers (lowest precedence first) -/
+
+/-- a later layer that speaks about `k` wins -/
+def pickFrom {α : Type} (init : Option α) (layers : List (Key → Option α)) (k : Key) : Option α :=
+  layers.foldl (fun acc L => match L k with | some v => some v | none => acc) init
+
+def pick {α : Type} (layers : List (Key → Option α)) (k : Key) : Option α := pickFrom none layers k
+
+/-- one layer per env file; the files before it (`pre`) are what its references can see -/
+def fileLayersFrom (penv : List (Key × Str)) : List (List Line) → List (List Line) → List (Key → Option (Option Str))
+  | _, [] => []
+  | pre, f :: r =>
+    (fun k => (fileVal (envLook penv (filesVal penv pre)) f k).map some) :: fileLayersFrom penv (pre ++ [f]) r
+
+/-- the `environment` layer: a value-less entry shows the project environment's value (or no value) -/
+def environmentLayer (penv : List (Key × Str)) (environment : List (Key × Option Str)) : Key → Option (Option Str) :=
+  fun k => match lookup k environment with
+    | some (some v) => some (some v)
+    | some none => some (lookup k penv)
+    | none => none
+
+/-- env_file 1, …, env_file n, environment -/
+def envLayers (penv : List (Key × Str)) (files : List (List Line)) (environment : List (Key × Option Str)) :
+    List (Key → Option (Option Str)) :=
+  fileLayersFrom penv [] files ++ [environmentLayer penv environment]
 
 /-! ### the property on a concrete layer assignment (used by the oracle) -/
 
